@@ -10,7 +10,7 @@ def run(ctx):
     hx = ctx.go_build("c11")
     ctx.proof_side(DIRS, "Properties/C11.v", extra_trusted=[
         "hand-written model of ds/orderedmap/orderedmap.go, ds/set_impl.go and the uint32/Empty instance of serializableorderedmap Encode/Decode (Model.v), tied to the code by the lockstep correspondence only",
-        "lock skeletons of the set/OrderedMap/ShrinkingMap methods are hand-written data (Locks.v: skeletons), validated against the code by the scripted and free-running watchdog runs only",
+        "lock skeletons of the set/OrderedMap/ShrinkingMap methods are hand-written data (Skeletons.v), validated against the code by the scripted and free-running watchdog runs only",
         "Go sync.RWMutex abstracted as: readers set + one announced writer; an announced writer blocks new readers (writer preference)",
     ])
     if thorough:
